@@ -27,15 +27,12 @@ func c03Case(c *hx.Ctx, r *hx.RNG, idx int64) {
 		fmt.Println("case:", k.desc(true), "shape:", shape)
 	}
 	cls := "FMA/" + k.class
-	kf := ""
-	if fmaProductOutOfRange(k) {
-		kf = "fma_product_exponent_out_of_range"
-	}
 	if k.costly(l) {
 		c.Skip()
 		return
 	}
 	got, pi, before, after := k.execShape(part, nil)
+	kf := fmaKnownFinding(k, &got, pi) // D15, and only when the outcome is the one the finding describes
 	o := k.outcome()
 	if pi != nil {
 		if pi.Class == "mk" || pi.Class == "cost" {
